@@ -572,6 +572,15 @@ def check_interp_xoprob(prog, rep):
                     "(sequential distances need contiguous chromosomes)", where(f), "raise unless is_grouped_vrnt()", "absent")
         good = False
     if pos_gen is None or pos_xo is None:
+        # assigned under a condition? then the positions / probabilities of an earlier map survive
+        for st in body:
+            if isinstance(st, ast.If):
+                inner = [s for s in ast.walk(st) if isinstance(s, ast.Assign) and len(s.targets) == 1 and field_of(s.targets[0]) in ("vrnt_genpos", "vrnt_xoprob")]
+                if inner and not any(isinstance(s, ast.Raise) for s in st.body):
+                    fld = field_of(inner[0].targets[0])
+                    rep.violate("R6-xoprob", construct, "%s is (re)computed only when `%s`: a matrix that already carries positions keeps them, so the crossover probabilities "
+                                "are not those of the map passed in" % (fld, dump(st.test)[:50]), where(f, st), "unconditional self.%s = ..." % fld, "if %s: ..." % dump(st.test)[:50])
+                    return
         rep.unrec("R6-xoprob", construct, "assignments of vrnt_genpos / vrnt_xoprob not found")
         return
     if pos_gen[0] > pos_xo[0]:
